@@ -25,3 +25,38 @@ def c09(c):
     for k in ('selections', 'u_zero', 'u_max', 'u_boundary', 'cases_with_leading_zero', 'cases_with_trailing_zero',
               'lattice_cases', 'in_run_cases'):
         c.require(k)
+
+
+@prop('C07',
+      rule="case = one vegas_refine_pdf call (or chain of up to 12/50 successive refinements) on (bins 2..256, dims 1..4, alpha in [0,3], "
+           "grid uniform/random/narrow-peak/zero-width-bins/previously refined, data one-nonzero-bin/two-spikes/geometric/denormal-scale/"
+           "constant/sparse/random/all-zero); plus hep::vegas runs (2..8/30 iterations, peaked integrands) whose every logged (x, bin, w) is "
+           "checked against the grid recorded in the result, scripted runs hitting canonical 0 / largest-below-1 / k/bins +-1ulp in every "
+           "coordinate, direct vegas_icdf(u=1.0 and u=0), and runs with an all-zero iteration. non-trivial = non-uniform input grid, "
+           "non-constant data and equidistribution actually judged (direct), or an adaptive run; distinct = hash of (T, grid, data) / run config.",
+      assumptions=["equidistribution tolerance 16*(bins+8)*eps_T*sum(imp)*(1+alpha) + 4*eps_T*|x|*local density (rounding of the running sums and of the stored boundary)",
+                   "dimensions whose smallest smoothed share would be below 64*min_normal(T) are validated for grid validity only (underflow makes T and long double legitimately differ)",
+                   "data whose smoothed sum overflows are not generated",
+                   "reference importance function written from the documentation in long double"])
+def c07(c):
+    c.std([dict(src='c07_vegas_grid.cpp', build='asan', shards={'quick': 5, 'thorough': 5}),
+           dict(src='c07_vegas_grid.cpp', build='clang', shards={'quick': 1, 'thorough': 5}, tiers=('thorough',))])
+    for k in ('refinements', 'equi_boundaries_checked', 'all_zero_refinements', 'calls_checked', 'zero_iterations', 'scripted_runs',
+              'scripted_u_zero', 'scripted_u_max', 'icdf_extreme_calls', 'adaptive_runs'):
+        c.require(k)
+
+
+@prop('C08',
+      rule="case = one multi_channel_refine_weights call (or chain of up to 20) on (1..64 channels; weights normalised/unnormalised/equal/wide, "
+           "with zeros; data all-zero/single-non-zero/wide-range/some-zero/equal/random; beta in (0,1]; min_weight in [0,1/channels)), plus real "
+           "hep::multi_channel runs (power-law channels, 2..8/30 iterations, optional all-zero iteration, user weights with disabled channels) whose "
+           "every used / proposed weight vector is judged. non-trivial = at least two enabled channels with positive data whose proportion was "
+           "judged (direct) or an adaptive run; distinct = hash of (T, weights, data) / run config.",
+      assumptions=["proportions judged against a long double reference within 16*(n+4)*eps_T relative; channels within 16*(n+2)*eps_T of the floor are ambiguous and skipped",
+                   "inputs for which w*d^beta or its share underflows in T are validated as probability vectors only",
+                   "enabled channels with a zero datum are judged only for >=0 and the sum (the property does not constrain them)"])
+def c08(c):
+    c.std([dict(src='c08_weights.cpp', build='asan', shards={'quick': 5, 'thorough': 5}),
+           dict(src='c08_weights.cpp', build='clang', shards={'quick': 1, 'thorough': 5}, tiers=('thorough',))])
+    for k in ('refinements', 'vectors_checked', 'all_zero_data', 'channels_ratio_judged', 'adaptive_runs', 'run_vectors_checked', 'zero_iterations'):
+        c.require(k)
